@@ -7,14 +7,15 @@ class C02(Prop):
     pid = "C02"
     prop_file = "Props/C02.v"
     module = "Props.C02"
-    gen_deps = ["Table", "ParserFn", "Utf8parseFn"]
+    gen_deps = ["Table", "ParserFn", "Utf8parseFn", "ArrayVecFn"]
     harness = ("h-core", "hcore")
     nontrivial_rule = ("cases: the 16 rows of the public state_change function (16x256, exhaustive); every byte string up to length L over the "
                        "28-symbol class alphabet (exhaustive; L=3 quick, 4 thorough); boundary-biased grammar streams; each stream again after a random prefix + CAN/SUB. "
                        "non-trivial = distinct case whose callback trace holds at least one event other than print/execute")
     trusted = ["third-party utf8parse automaton: TRANSLATED from the registry source of the version Cargo.lock pins (tools/gen_fn_utf8parse.py: unpacked source = the archive of the lock file's checksum = the directory cargo metadata reports for the harness crates) and proved equal to Model/Utf8parse.v (Proofs/Utf8parseGen.v); also tied by every UTF-8 case. Trusted: cargo builds the harness from that directory; a Receiver = the list of calls it gets; char::from_u32_unchecked = identity (precondition proved)",
                "the value-level reading of the two unsafe idioms in the translation (tools/gen_fn_parser.py): a MaybeUninit slot is an option "
-               "(uninitialised slot read back = None), transmute::<u8, State|Action> is the discriminant decoder"]
+               "(uninitialised slot read back = None), transmute::<u8, State|Action> is the discriminant decoder",
+               "arrayvec 0.7.6 ArrayVec (the `core` buffer): new / Default, len, capacity, is_full, push, try_push, push_unchecked, truncate, clear, set_len, as_slice, Deref, Drop, the default bodies of trait ArrayVecImpl they reach, CapacityError::new and the macro assert_capacity_limit! are TRANSLATED from the registry source of the version Cargo.lock pins (tools/gen_fn_arrayvec.py: unpacked source = the .crate archive of the lock file's checksum = the directory `cargo metadata --all-features` reports for harness/h-parsecfg) and proved to behave, on the representation invariant (slots [0, len) initialised, len <= CAP), as the list the parser translation uses (raw_full, len, guarded `++ [b]`, [], slice) and to preserve the invariant (Proofs/ArrayVecGen.v, c20_translated_arrayvec_*). Trusted: the VALUE-LEVEL reading of its unsafe code (coq/Model/ArrayVec.v: a MaybeUninit slot is an option, a pointer into the buffer is a slot index bound to the vector it came from, ptr::write / from_raw_parts / drop_in_place act on those slots, undefined behaviour = None; size_of::<usize>() = 8), that cargo builds the harness from that directory, and the Clone / PartialEq / Debug impls of ArrayVec (reached by Parser's derives only; differential runs)"]
     assumptions = ["input bytes are < 256 (the Rust type u8)"]
 
     def streams(self, tier, rng):
